@@ -1128,6 +1128,7 @@ def run_monitor(P, init, step, starts=None, max_states=2000000):
     The monitor sees node `pi` (events of pi's block have happened when leaving it).
     Returns dict (pi, mstate) -> predecessor (for path reconstruction)."""
     starts = starts if starts is not None else [P.entry]
+    assert init is not None, "monitor states must not be None (None means: prune this edge)"
     seen = {}
     work = deque()
     for s in starts:
